@@ -34,15 +34,16 @@ Definition spec_demands (s : outcome) (o : obs) : bool :=
   | _, _ => false
   end.
 
-(* v_class = 0 exactly inside the two guards of C12_binds_exactly. Outside them the two listed findings are the
-   classes 1 and 2 ONLY when the faithful model reproduces the observation bug for bug; an observation outside the
-   guards that neither the model nor the spec explains gets class 3 / 4, which is no listed finding: a different
-   failure on a program that also has a reserved / private-Optional parameter is still reported as a violation. *)
+(* v_class = 0 exactly inside the two guards of C12_binds_exactly (the model is the present code, pre = false).
+   Outside them the two listed findings are the classes 5 and 6 ONLY when the faithful model reproduces the
+   observation bug for bug; an observation outside the guards that neither the model nor the spec explains gets
+   class 7 / 8, which is no listed finding: a different failure on such a program is still a violation.
+   (Classes 1-4 were the two findings of round 1, repaired in /repo.) *)
 Definition judge1 (c : case) : verdict :=
-  let m := model_explains (auto_cli conv_simple (c_aspos c) (c_comps c) (c_toks c)) (c_obs c) in
+  let m := model_explains (auto_cli false conv_simple (c_aspos c) (c_comps c) (c_toks c)) (c_obs c) in
   {| v_model := m;
-     v_class := if negb (no_reserved_param_names (c_comps c)) then (if m then 1%N else 3%N)
-                else if negb (no_private_optional_without_default (c_comps c)) then (if m then 2%N else 4%N) else 0%N;
+     v_class := if negb (no_class_subcommand_param (c_comps c)) then (if m then 5%N else 7%N)
+                else if negb (no_nullish_str_default (c_comps c)) then (if m then 6%N else 8%N) else 0%N;
      v_spec := spec_demands (spec conv_simple (c_aspos c) (c_comps c) (c_toks c)) (c_obs c) |}.
 
 Definition judge (cs : list case) := judge_all judge1 cs.
